@@ -448,8 +448,32 @@ func (m optModel) predictions() *Failure {
 		if !ok {
 			return failf("seq-prediction", "NewMapXmlSeq root key under %+v: %#v", m, s1)
 		}
-		if _, ok := rm[kp+"attr"]; !ok {
+		attrs, ok := rm[kp+"attr"].(map[string]interface{})
+		if !ok {
 			return failf("seq-prediction", "NewMapXmlSeq attribute key %q missing under %+v: %#v", kp+"attr", m, rm)
+		}
+		// values: escaped iff decoder-side escaping is on (the encoder-side switch must not matter)
+		ak, ik := "A-b", "It-em"
+		if m.Snake {
+			ak, ik = "A_b", "It_em"
+		}
+		wantA, wantT := "1 & 2", "t<1"
+		if m.KeepSpaces {
+			wantT = "  t<1 "
+		}
+		if m.DecEscape {
+			wantA, wantT = mxjEsc(wantA), mxjEsc(wantT)
+		}
+		am, _ := attrs[ak].(map[string]interface{})
+		if am == nil || am[kp+"text"] != wantA {
+			return failf("seq-prediction", "NewMapXmlSeq attribute %q under %+v = %#v want %q", ak, m, attrs[ak], wantA)
+		}
+		if il, ok := rm[ik].([]interface{}); ok && len(il) == 2 {
+			if im, _ := il[0].(map[string]interface{}); im == nil || im[kp+"text"] != wantT {
+				return failf("seq-prediction", "NewMapXmlSeq text of %q under %+v = %#v want %q", ik, m, il[0], wantT)
+			}
+		} else {
+			return failf("seq-prediction", "NewMapXmlSeq %q under %+v = %#v", ik, m, rm[ik])
 		}
 	}
 	// JSON: JsonUseNumber only
